@@ -35,7 +35,10 @@ Inductive cphase :=
 | PLanded       (* task created in the portal's group; its first step has not run *)
 | PRunning      (* callable invoked; the awaitable is suspended *)
 | PFinished     (* _call_func returned: task done; TaskGroup's task_done callback not yet run *)
-| PReaped.      (* task_done ran: removed from the group's _tasks *)
+| PReaped       (* task_done ran: removed from the group's _tasks *)
+| PLost.        (* F40: the thread passed _check_running, but its call_soon_threadsafe came after the loop's last
+                   iteration: the handle is never run -- the call is neither run nor refused and the thread blocks in
+                   run_sync's f.result() forever *)
 
 Inductive hphase := HBody | HExitWaiting | HExitEmptyCheckpoint | HLeft.
 
@@ -57,7 +60,9 @@ Inductive op :=
 | CancelLand (k : cid)
 | Stop (cr : bool)
 | HostExit (exc : bool)
-| ResumeHost.
+| ResumeHost
+| LoopEnd.      (* the event loop runs its last iteration (start_blocking_portal: run_portal() has returned and
+                   asyncio.run() is shutting down; the loop is not closed yet) *)
 
 Inductive res :=
 | RIssued | RRefused            (* ThreadIssue: accepted / RuntimeError("This portal is not running") *)
@@ -66,6 +71,7 @@ Inductive res :=
 | RCancelTrue | RCancelFalse    (* return value of Future.cancel() *)
 | RNone                         (* nothing to report *)
 | RHostBlocked | RHostLeft      (* the host suspended inside __aexit__ / returned from it *)
+| RLost                         (* the hand-over came after the loop's last iteration: the thread hangs (F40) *)
 | RRejected.                    (* op not possible in this state; state unchanged *)
 
 Record call := mkcall {
@@ -83,15 +89,24 @@ Record call := mkcall {
   c_outcome : option outcome;  (* what the callable finally did *)
   c_started : option Z;        (* value passed to task_status.started() *)
   c_fcancel : bool;            (* a caller thread's Future.cancel() returned True *)
-  c_assigns : nat              (* number of times c_fut changed value *)
+  c_assigns : nat;             (* number of times c_fut changed value *)
+  (* the waiter-notification bit of the concurrent.futures cell: CANCELLED vs CANCELLED_AND_NOTIFIED.  Only a
+     notified cancelled future is reported as done by concurrent.futures.wait() / as_completed(). *)
+  c_notified : bool
 }.
 
 Definition call0 : call :=
-  mkcall KSync PNone CPending CPending 0 false false false false false None None false 0.
+  mkcall KSync PNone CPending CPending 0 false false false false false None None false 0 false.
 
 Record st := mk {
   f4_fixed : bool;           (* TaskGroup.__aexit__ re-tests _tasks after the empty-group checkpoint (08c4569) *)
   fc_fixed : bool;           (* _call_func captures get_ident() instead of self._event_loop_thread_id (2158065) *)
+  fn_fixed : bool;           (* _call_func notifies a cancelled future in its `finally:` (56e7f66), not only in the
+                                `except CancelledError` branch *)
+  loop_ended : bool;         (* the event loop has run its last iteration (env op LoopEnd): handles queued from now
+                                on are never run *)
+  lost_calls : list cid;     (* calls whose start_soon was handed over after that: never run, never refused (F40) *)
+  lost_cancels : list cid;   (* Future.cancel() calls whose scope.cancel was handed over after that: never return *)
   running : bool;            (* portal._event_loop_thread_id is not None *)
   stop_event : bool;
   host : hphase;
@@ -104,45 +119,49 @@ Record st := mk {
 (* The code under test has both repairs: `init true true`.  The two switches keep the behaviour of the
    tree before each repair available (pinned variants, used only by the ..._refuted_pinned witnesses and by
    the harness to recognise a regression). *)
-Definition init (f4 fc : bool) : st := mk f4 fc true false HBody false [] false (fun _ => call0).
+Definition init (f4 fc fn : bool) : st := mk f4 fc fn false [] [] true false HBody false [] false (fun _ => call0).
 
 (* ---------- field updates ---------- *)
 Definition with_phase (c : call) (p : cphase) : call :=
   mkcall (c_kind c) p (c_fut c) (c_status c) (c_execs c) (c_captured c) (c_scope_cancelled c) (c_inflight c)
-         (c_base_fail c) (c_invalid c) (c_outcome c) (c_started c) (c_fcancel c) (c_assigns c).
+         (c_base_fail c) (c_invalid c) (c_outcome c) (c_started c) (c_fcancel c) (c_assigns c) (c_notified c).
 Definition with_fut (c : call) (x : cell) : call :=   (* a change of value of the cell: counted *)
   mkcall (c_kind c) (c_phase c) x (c_status c) (c_execs c) (c_captured c) (c_scope_cancelled c) (c_inflight c)
-         (c_base_fail c) (c_invalid c) (c_outcome c) (c_started c) (c_fcancel c) (S (c_assigns c)).
+         (c_base_fail c) (c_invalid c) (c_outcome c) (c_started c) (c_fcancel c) (S (c_assigns c)) (c_notified c).
 Definition with_status (c : call) (x : cell) : call :=
   mkcall (c_kind c) (c_phase c) (c_fut c) x (c_execs c) (c_captured c) (c_scope_cancelled c) (c_inflight c)
-         (c_base_fail c) (c_invalid c) (c_outcome c) (c_started c) (c_fcancel c) (c_assigns c).
+         (c_base_fail c) (c_invalid c) (c_outcome c) (c_started c) (c_fcancel c) (c_assigns c) (c_notified c).
 Definition with_entry (c : call) (cap : bool) : call :=   (* func(args) is invoked *)
   mkcall (c_kind c) (c_phase c) (c_fut c) (c_status c) (S (c_execs c)) cap (c_scope_cancelled c) (c_inflight c)
-         (c_base_fail c) (c_invalid c) (c_outcome c) (c_started c) (c_fcancel c) (c_assigns c).
+         (c_base_fail c) (c_invalid c) (c_outcome c) (c_started c) (c_fcancel c) (c_assigns c) (c_notified c).
 Definition with_scope_cancelled (c : call) : call :=
   mkcall (c_kind c) (c_phase c) (c_fut c) (c_status c) (c_execs c) (c_captured c) true (c_inflight c)
-         (c_base_fail c) (c_invalid c) (c_outcome c) (c_started c) (c_fcancel c) (c_assigns c).
+         (c_base_fail c) (c_invalid c) (c_outcome c) (c_started c) (c_fcancel c) (c_assigns c) (c_notified c).
 Definition with_inflight (c : call) (b : bool) : call :=
   mkcall (c_kind c) (c_phase c) (c_fut c) (c_status c) (c_execs c) (c_captured c) (c_scope_cancelled c) b
-         (c_base_fail c) (c_invalid c) (c_outcome c) (c_started c) (c_fcancel c) (c_assigns c).
+         (c_base_fail c) (c_invalid c) (c_outcome c) (c_started c) (c_fcancel c) (c_assigns c) (c_notified c).
 Definition with_base_fail (c : call) (b : bool) : call :=
   mkcall (c_kind c) (c_phase c) (c_fut c) (c_status c) (c_execs c) (c_captured c) (c_scope_cancelled c) (c_inflight c)
-         b (c_invalid c) (c_outcome c) (c_started c) (c_fcancel c) (c_assigns c).
+         b (c_invalid c) (c_outcome c) (c_started c) (c_fcancel c) (c_assigns c) (c_notified c).
 Definition with_invalid (c : call) : call :=
   mkcall (c_kind c) (c_phase c) (c_fut c) (c_status c) (c_execs c) (c_captured c) (c_scope_cancelled c) (c_inflight c)
-         (c_base_fail c) true (c_outcome c) (c_started c) (c_fcancel c) (c_assigns c).
+         (c_base_fail c) true (c_outcome c) (c_started c) (c_fcancel c) (c_assigns c) (c_notified c).
 Definition with_done (c : call) (o : outcome) : call :=   (* _call_func returns: the task is done *)
   mkcall (c_kind c) PFinished (c_fut c) (c_status c) (c_execs c) (c_captured c) (c_scope_cancelled c) (c_inflight c)
-         (c_base_fail c) (c_invalid c) (Some o) (c_started c) (c_fcancel c) (c_assigns c).
+         (c_base_fail c) (c_invalid c) (Some o) (c_started c) (c_fcancel c) (c_assigns c) (c_notified c).
 Definition with_started (c : call) (v : Z) : call :=
   mkcall (c_kind c) (c_phase c) (c_fut c) (CResult v) (c_execs c) (c_captured c) (c_scope_cancelled c) (c_inflight c)
-         (c_base_fail c) (c_invalid c) (c_outcome c) (Some v) (c_fcancel c) (c_assigns c).
+         (c_base_fail c) (c_invalid c) (c_outcome c) (Some v) (c_fcancel c) (c_assigns c) (c_notified c).
 Definition with_fcancel (c : call) : call :=
   mkcall (c_kind c) (c_phase c) (c_fut c) (c_status c) (c_execs c) (c_captured c) (c_scope_cancelled c) (c_inflight c)
-         (c_base_fail c) (c_invalid c) (c_outcome c) (c_started c) true (c_assigns c).
+         (c_base_fail c) (c_invalid c) (c_outcome c) (c_started c) true (c_assigns c) (c_notified c).
+
+Definition with_notified (c : call) : call :=
+  mkcall (c_kind c) (c_phase c) (c_fut c) (c_status c) (c_execs c) (c_captured c) (c_scope_cancelled c) (c_inflight c)
+         (c_base_fail c) (c_invalid c) (c_outcome c) (c_started c) (c_fcancel c) (c_assigns c) true.
 
 Definition set_call (s : st) (k : cid) (c : call) : st :=
-  mk (f4_fixed s) (fc_fixed s) (running s) (stop_event s) (host s) (woken s) (members s) (group_cancelled s) (upd (calls s) k c).
+  mk (f4_fixed s) (fc_fixed s) (fn_fixed s) (loop_ended s) (lost_calls s) (lost_cancels s) (running s) (stop_event s) (host s) (woken s) (members s) (group_cancelled s) (upd (calls s) k c).
 
 (* ---------- the cells ---------- *)
 Definition is_pending (x : cell) : bool := match x with CPending => true | _ => false end.
@@ -191,16 +210,23 @@ Definition finish_exc (c : call) (e : Z) : call :=
    - Otherwise `except CancelledError: future.cancel(); future.set_running_or_notify_cancel()`;
      a pending future flips to cancelled and its done-callbacks run in the loop thread: task_done, then
      `callback`, which calls scope.cancel() directly when the captured thread id equals get_ident(). *)
+(* Future.set_running_or_notify_cancel() on a cancelled future: CANCELLED -> CANCELLED_AND_NOTIFIED (waiters are
+   told); on an already notified (or finished) future it raises RuntimeError("Future in unexpected state").
+   (On a pending future it would switch to RUNNING; _call_func never calls it on a pending future.) *)
+Definition notify (c : call) : call := if c_notified c then with_invalid c else with_notified c.
+
 Definition finish_cancelled (gc : bool) (c : call) : call :=
   with_done
     (if andb (c_scope_cancelled c) (negb gc) then
        (if is_cancelled (c_fut c) then c else with_invalid c)
      else
+       (* the `except CancelledError` branch; the notification made here before 56e7f66 and the one made in the
+          `finally:` since then coincide on this path (see `finalize`) *)
        match c_fut c with
        | CPending =>
            let c1 := status_on_done (with_fut c CCancelled) in
-           if c_captured c1 then with_scope_cancelled c1 else c1
-       | CCancelled => c
+           notify (if c_captured c1 then with_scope_cancelled c1 else c1)
+       | CCancelled => notify c
        | _ => with_invalid c
        end)
     OCancelledOut.
@@ -216,14 +242,24 @@ Definition finish_cancel_own (c : call) : call :=
     (match c_fut c with
      | CPending =>
          let c1 := status_on_done (with_fut c CCancelled) in
-         match c_kind c1 with
-         | KSync => c1
-         | _ => if c_captured c1 then with_scope_cancelled c1 else c1
-         end
-     | CCancelled => c
+         notify (match c_kind c1 with
+                 | KSync => c1
+                 | _ => if c_captured c1 then with_scope_cancelled c1 else c1
+                 end)
+     | CCancelled => notify c
      | _ => with_invalid c
      end)
     OCancelledOut.
+
+(* `finally: ... if future.cancelled(): future.set_running_or_notify_cancel()` (since 56e7f66): whoever cancelled
+   the future -- the portal in the except branch above, or the caller, whose cancellation is absorbed by the call's own
+   scope (or simply found by `if not future.cancelled()` for a callable that completed) -- the waiters are told once
+   the task is done.  Before 56e7f66 (`fx = false`) only the except branch notified. *)
+Definition finalize (fx : bool) (c : call) : call :=
+  match c_phase c with
+  | PFinished => if andb fx (andb (is_cancelled (c_fut c)) (negb (c_notified c))) then with_notified c else c
+  | _ => c
+  end.
 
 (* task_status.started(v): Future.set_result on the status cell.  Calling it when the status cell is not
    pending (twice, or after it was resolved) raises inside the callable: API misuse, excluded (None). *)
@@ -316,17 +352,23 @@ Definition step (s : st) (o : op) : st * res :=
       match c_phase (calls s k) with
       | PNone =>
           if running s then
-            (set_call s k (mkcall kd PIssued CPending CPending 0 false false false false false None None false 0), RIssued)
+            (set_call s k (mkcall kd PIssued CPending CPending 0 false false false false false None None false 0 false), RIssued)
           else
-            (set_call s k (mkcall kd PRefused CPending CPending 0 false false false false false None None false 0), RRefused)
+            (set_call s k (mkcall kd PRefused CPending CPending 0 false false false false false None None false 0 false), RRefused)
       | _ => (s, RRejected)
       end
   | ThreadLand k =>
       match c_phase (calls s k) with
       | PIssued =>
           (* create_task: `if not self._entered or not self.cancel_scope._active: raise RuntimeError` *)
-          if is_left (host s) then (set_call s k (with_phase (calls s k) PLandRefused), RLandRefused)
-          else (mk (f4_fixed s) (fc_fixed s) (running s) (stop_event s) (host s) (woken s) (members s ++ [k]) (group_cancelled s)
+          if is_left (host s) then
+            if loop_ended s then
+              (* F40: the handle is appended to a ready queue that is never run again *)
+              (mk (f4_fixed s) (fc_fixed s) (fn_fixed s) (loop_ended s) (lost_calls s ++ [k]) (lost_cancels s) (running s)
+                  (stop_event s) (host s) (woken s) (members s) (group_cancelled s)
+                  (upd (calls s) k (with_phase (calls s k) PLost)), RLost)
+            else (set_call s k (with_phase (calls s k) PLandRefused), RLandRefused)
+          else (mk (f4_fixed s) (fc_fixed s) (fn_fixed s) (loop_ended s) (lost_calls s) (lost_cancels s) (running s) (stop_event s) (host s) (woken s) (members s ++ [k]) (group_cancelled s)
                    (upd (calls s) k (with_phase (calls s k) PLanded)), RLanded)
       | _ => (s, RRejected)
       end
@@ -337,7 +379,7 @@ Definition step (s : st) (o : op) : st * res :=
           match w with
           | WNormal =>
               match first_step (orb (fc_fixed s) (running s)) (group_cancelled s) c sv f with
-              | Some c' => (set_call s k c', RStepped)
+              | Some c' => (set_call s k (finalize (fn_fixed s) c'), RStepped)
               | None => (s, RRejected)
               end
           | WInterrupt => (s, RRejected)   (* a task that has not started is not eligible for delivery *)
@@ -345,7 +387,7 @@ Definition step (s : st) (o : op) : st * res :=
       | PRunning =>
           if (match w with WInterrupt => orb (c_scope_cancelled c) (group_cancelled s) | WNormal => true end) then
             match body_step (group_cancelled s) c w sv f with
-            | Some c' => (set_call s k c', RStepped)
+            | Some c' => (set_call s k (finalize (fn_fixed s) c'), RStepped)
             | None => (s, RRejected)
             end
           else (s, RRejected)
@@ -358,7 +400,7 @@ Definition step (s : st) (o : op) : st * res :=
           let ms := remove_cid k (members s) in
           (* task_done: a non-cancellation exception of the task cancels the group scope;
              `if self._on_completed_fut is not None and not self._tasks: set_result(None)` *)
-          (mk (f4_fixed s) (fc_fixed s) (running s) (stop_event s) (host s)
+          (mk (f4_fixed s) (fc_fixed s) (fn_fixed s) (loop_ended s) (lost_calls s) (lost_cancels s) (running s) (stop_event s) (host s)
               (match host s with HExitWaiting => if is_nil ms then true else woken s | _ => woken s end)
               ms (orb (group_cancelled s) (c_base_fail c))
               (upd (calls s) k (with_phase c PReaped)), RNone)
@@ -371,15 +413,20 @@ Definition step (s : st) (o : op) : st * res :=
       else (s, RRejected)
   | CancelLand k =>
       let c := calls s k in
-      if c_inflight c then (set_call s k (with_scope_cancelled (with_inflight c false)), RNone)
+      if c_inflight c then
+        if loop_ended s then
+          (* F40, second entry point: the scope.cancel marshalled by Future.cancel() is never run; cancel() never returns *)
+          (mk (f4_fixed s) (fc_fixed s) (fn_fixed s) (loop_ended s) (lost_calls s) (lost_cancels s ++ [k]) (running s)
+              (stop_event s) (host s) (woken s) (members s) (group_cancelled s) (calls s), RLost)
+        else (set_call s k (with_scope_cancelled (with_inflight c false)), RNone)
       else (s, RRejected)
   | Stop cr =>
-      (mk (f4_fixed s) (fc_fixed s) false true (host s) (woken s) (members s) (orb (group_cancelled s) cr) (calls s), RNone)
+      (mk (f4_fixed s) (fc_fixed s) (fn_fixed s) (loop_ended s) (lost_calls s) (lost_cancels s) false true (host s) (woken s) (members s) (orb (group_cancelled s) cr) (calls s), RNone)
   | HostExit exc =>
       match host s with
       | HBody =>
           (* await self.stop(); then TaskGroup.__aexit__: cancel on exception; `if self._tasks:` *)
-          (mk (f4_fixed s) (fc_fixed s) false true (if is_nil (members s) then HExitEmptyCheckpoint else HExitWaiting) false
+          (mk (f4_fixed s) (fc_fixed s) (fn_fixed s) (loop_ended s) (lost_calls s) (lost_cancels s) false true (if is_nil (members s) then HExitEmptyCheckpoint else HExitWaiting) false
               (members s) (orb (group_cancelled s) exc) (calls s), RHostBlocked)
       | _ => (s, RRejected)
       end
@@ -387,34 +434,43 @@ Definition step (s : st) (o : op) : st * res :=
       match host s with
       | HExitEmptyCheckpoint =>
           if andb (f4_fixed s) (negb (is_nil (members s))) then
-            (mk (f4_fixed s) (fc_fixed s) (running s) (stop_event s) HExitWaiting false (members s) (group_cancelled s) (calls s),
+            (mk (f4_fixed s) (fc_fixed s) (fn_fixed s) (loop_ended s) (lost_calls s) (lost_cancels s) (running s) (stop_event s) HExitWaiting false (members s) (group_cancelled s) (calls s),
              RHostBlocked)
           else
-            (mk (f4_fixed s) (fc_fixed s) (running s) (stop_event s) HLeft false (members s) (group_cancelled s) (calls s), RHostLeft)
+            (mk (f4_fixed s) (fc_fixed s) (fn_fixed s) (loop_ended s) (lost_calls s) (lost_cancels s) (running s) (stop_event s) HLeft false (members s) (group_cancelled s) (calls s), RHostLeft)
       | HExitWaiting =>
           if woken s then
             if is_nil (members s) then
-              (mk (f4_fixed s) (fc_fixed s) (running s) (stop_event s) HLeft false (members s) (group_cancelled s) (calls s), RHostLeft)
+              (mk (f4_fixed s) (fc_fixed s) (fn_fixed s) (loop_ended s) (lost_calls s) (lost_cancels s) (running s) (stop_event s) HLeft false (members s) (group_cancelled s) (calls s), RHostLeft)
             else
-              (mk (f4_fixed s) (fc_fixed s) (running s) (stop_event s) HExitWaiting false (members s) (group_cancelled s) (calls s),
+              (mk (f4_fixed s) (fc_fixed s) (fn_fixed s) (loop_ended s) (lost_calls s) (lost_cancels s) (running s) (stop_event s) HExitWaiting false (members s) (group_cancelled s) (calls s),
                RHostBlocked)
           else (s, RRejected)
       | _ => (s, RRejected)
       end
+  | LoopEnd =>
+      (* only after the portal's context has been left (run_portal() returned) *)
+      if andb (is_left (host s)) (negb (loop_ended s)) then
+        (mk (f4_fixed s) (fc_fixed s) (fn_fixed s) true (lost_calls s) (lost_cancels s) (running s) (stop_event s) (host s)
+            (woken s) (members s) (group_cancelled s) (calls s), RNone)
+      else (s, RRejected)
   end.
+
+(* the predicate that identifies the histories of finding F40 *)
+Definition lost_any (s : st) : bool := negb (andb (is_nil (lost_calls s)) (is_nil (lost_cancels s))).
 
 (* ---------- observations (what the harness compares after every step) ---------- *)
 Definition res_code (r : res) : Z :=
   match r with
   | RIssued => 0 | RRefused => 1 | RLanded => 2 | RLandRefused => 3 | RStepped => 4
-  | RCancelTrue => 5 | RCancelFalse => 6 | RNone => 7 | RHostBlocked => 8 | RHostLeft => 9
+  | RCancelTrue => 5 | RCancelFalse => 6 | RNone => 7 | RHostBlocked => 8 | RHostLeft => 9 | RLost => 10
   | RRejected => 99
   end%Z.
 
 Definition phase_code (p : cphase) : Z :=
   match p with
   | PNone => 0 | PRefused => 1 | PIssued => 2 | PLandRefused => 3 | PLanded => 4 | PRunning => 5
-  | PFinished => 6 | PReaped => 7
+  | PFinished => 6 | PReaped => 7 | PLost => 8
   end%Z.
 
 Definition hphase_code (h : hphase) : Z :=
@@ -432,6 +488,7 @@ Definition caller_code (c : call) : Z :=
   | PRefused => 1          (* RuntimeError from _check_running *)
   | PIssued => 2           (* in flight: between _check_running and the landing *)
   | PLandRefused => 3      (* RuntimeError from the marshalled start_soon *)
+  | PLost => 8             (* blocked for ever in run_sync's f.result() *)
   | _ =>
       match c_kind c with
       | KStart =>
@@ -451,17 +508,21 @@ Definition interruptible (s : st) (c : call) : bool :=
   | _ => false
   end.
 
+(* state of the per-call future as concurrent.futures reports it: 3 = CANCELLED, 4 = CANCELLED_AND_NOTIFIED *)
+Definition fut_code (c : call) : Z :=
+  match c_fut c with CCancelled => if c_notified c then 4 else 3 | x => cell_code x end%Z.
+
 Definition obs_call (s : st) (k : cid) : list Z :=
   let c := calls s k in
-  [phase_code (c_phase c); cell_code (c_fut c); cell_val (c_fut c); cell_code (c_status c); cell_val (c_status c);
+  [phase_code (c_phase c); fut_code c; cell_val (c_fut c); cell_code (c_status c); cell_val (c_status c);
    nz (c_execs c); bz (interruptible s c); bz (c_inflight c); caller_code c].
 
 Definition observe (n : nat) (s : st) (r : res) : list Z :=
   [res_code r; bz (running s); bz (stop_event s); hphase_code (host s); bz (woken s); nz (length (members s));
-   bz (group_cancelled s)] ++ flat_map (obs_call s) (seq 0 n).
+   bz (group_cancelled s); bz (loop_ended s); bz (lost_any s)] ++ flat_map (obs_call s) (seq 0 n).
 
 (* ---------- codec: flat integer encoding of a case (shared with the Python harness) ----------
-   case = f4_fixed :: fc_fixed :: ncalls :: ops, every op = 6 integers [code; k; a; b; c; d] *)
+   case = f4_fixed :: fc_fixed :: fn_fixed :: ncalls :: ops, every op = 6 integers [code; k; a; b; c; d] *)
 Definition decode_kind (a : Z) : kind :=
   match a with 0 => KSync | 1 => KCoro | _ => KStart end%Z.
 
@@ -478,6 +539,7 @@ Definition decode_op (code k a b c d : Z) : op :=
   | 5 => CancelLand (zn k)
   | 6 => Stop (zb a)
   | 7 => HostExit (zb a)
+  | 9 => LoopEnd
   | _ => ResumeHost
   end%Z.
 
@@ -495,6 +557,6 @@ Fixpoint run_obs (n : nat) (s : st) (ops : list op) : list Z :=
 
 Definition run_case (c : list Z) : list Z :=
   match c with
-  | f4 :: fc :: n :: r => run_obs (zn n) (init (zb f4) (zb fc)) (decode_ops r)
+  | f4 :: fc :: fn :: n :: r => run_obs (zn n) (init (zb f4) (zb fc) (zb fn)) (decode_ops r)
   | _ => []
   end.
